@@ -1334,6 +1334,7 @@ def run(ctx: vlib.Ctx):
            "C08_spec_sorted", "C08_spec_values"]
     ctx.theorems("props/C08_kernel_K3.vo", ["K3_order", "K3_look"], kernels=["K3"])
     ctx.theorems("props/C08_kernel_K8.vo", ["K8_forward", "K8_use_kwargs"], kernels=["K8"])
+    ctx.theorems("props/C08_kernel_K13F.vo", ["K13F_defaults", "C08_ctx_kw_defaults"], kernels=["K13F", "K3"])
     ctx.theorems("props/C08_kernel_K14.vo", ["K14_passdown", "K14_pass_dd"], kernels=["K14"])
     ctx.theorems("props/C08_kernel_K17.vo", ["K17_nullable"], kernels=["K17"])
     ctx.theorems("props/C08_kernel_K18.vo", ["K18_bookkeeping", "K18_use_kwargs"], kernels=["K18", "K8"])
@@ -1346,7 +1347,7 @@ def run(ctx: vlib.Ctx):
         with vlib.Lock("build"):
             rc, out, _ = vlib.run(["timeout", "600", "coqchk", "-silent", "-o", "-Q", "theories", "Verif", "-Q", "gen", "VerifGen",
                                    "-Q", "props", "VerifProps", "VerifProps.C08_project", "VerifProps.C08_nested",
-                                   "VerifProps.C08_kernel_K3", "VerifProps.C08_kernel_K8", "VerifProps.C08_kernel_K14", "VerifProps.C08_kernel_K17", "VerifProps.C08_kernel_K18"], cwd=vlib.COQ, timeout=640)
+                                   "VerifProps.C08_kernel_K3", "VerifProps.C08_kernel_K8", "VerifProps.C08_kernel_K14", "VerifProps.C08_kernel_K17", "VerifProps.C08_kernel_K18", "VerifProps.C08_kernel_K13F"], cwd=vlib.COQ, timeout=640)
         ok = rc == 0 and "Axioms: <none>" in out
         ctx.obligation("coqchk -o (C08_project, C08_nested, C08_kernel_K3, C08_kernel_K8): no axioms", ok, out[-600:])
         if not ok:
